@@ -14,3 +14,29 @@ package cmpp
 //@   layout dec
 
 // ---- hand-written below ----
+
+// ---------------------------------------------------------------- message id (C17), bit-vector mode
+
+//@ func CombineMsgID
+//@   mode bv
+//@   props C17
+//@   ensures [C17 layout] month < 16 && day < 32 && hour < 32 && minute < 64 && second < 64 && gateID < 4194304 && sequenceID < 65536 ==> result == (month << 60 | day << 55 | hour << 50 | minute << 44 | second << 38 | gateID << 16 | sequenceID)
+
+//@ func SplitMsgID
+//@   mode bv
+//@   props C17
+//@   ensures [C17 fields] month == (msgID >> 60) && day == ((msgID >> 55) & 31) && hour == ((msgID >> 50) & 31) && minute == ((msgID >> 44) & 63) && second == ((msgID >> 38) & 63) && gateID == ((msgID >> 16) & 4194303) && sequenceID == (msgID & 65535)
+//@   ensures [C17 widths] month < 100 && day < 100 && hour < 100 && minute < 100 && second < 100 && gateID < 10000000 && sequenceID < 100000
+//@   ensures [C17 recombine] (month << 60 | day << 55 | hour << 50 | minute << 44 | second << 38 | gateID << 16 | sequenceID) == msgID
+
+//@ lemma msgid_split_combine(month bv64, day bv64, hour bv64, minute bv64, second bv64, gateID bv64, sequenceID bv64)
+//@   props C17
+//@   theory none
+//@   requires month < 16 && day < 32 && hour < 32 && minute < 64 && second < 64 && gateID < 4194304 && sequenceID < 65536
+//@   ensures ((month << 60 | day << 55 | hour << 50 | minute << 44 | second << 38 | gateID << 16 | sequenceID) >> 60) == month
+//@   ensures (((month << 60 | day << 55 | hour << 50 | minute << 44 | second << 38 | gateID << 16 | sequenceID) >> 55) & 31) == day
+//@   ensures (((month << 60 | day << 55 | hour << 50 | minute << 44 | second << 38 | gateID << 16 | sequenceID) >> 50) & 31) == hour
+//@   ensures (((month << 60 | day << 55 | hour << 50 | minute << 44 | second << 38 | gateID << 16 | sequenceID) >> 44) & 63) == minute
+//@   ensures (((month << 60 | day << 55 | hour << 50 | minute << 44 | second << 38 | gateID << 16 | sequenceID) >> 38) & 63) == second
+//@   ensures (((month << 60 | day << 55 | hour << 50 | minute << 44 | second << 38 | gateID << 16 | sequenceID) >> 16) & 4194303) == gateID
+//@   ensures ((month << 60 | day << 55 | hour << 50 | minute << 44 | second << 38 | gateID << 16 | sequenceID) & 65535) == sequenceID
